@@ -62,6 +62,15 @@ class Ctx:
             self.viol(rule, construct, key, site, why_bad)
         return cond
 
+    def shape(self, cond: bool, rule, construct, key, site, why_bad, why_ok=""):
+        """Like check(), for obligations decided by matching an exact code shape: when the shape is not the recognised one the checker cannot tell whether the
+        property still holds, so the outcome is an ANALYSIS-ERROR (exit 2), never a VIOLATION - a behaviour-preserving rewrite must not raise an alarm."""
+        if cond:
+            self.ok(rule, construct, key, site, why_ok)
+        else:
+            self.errors.append(f"rule={self.prop}.{rule} anchor={construct} why=shape not recognised at {site}: [{key}] {why_bad}")
+        return cond
+
     def assume(self, text: str):
         if text not in self.assumptions:
             self.assumptions.append(text)
